@@ -211,7 +211,7 @@ def compositions(mem=None):
 class Opts(dict):
     """Concrete option set. Keys (all optional except app):
     app bytes; load int; tz 'disabled'|'enabled'|'custom'; tz_data bytes; hwkey bool; ks bytes|None; relocs [(bytes, dst)];
-    cert kind name; img_ver int; sub int; fw_ver int; digest None|'sha256'|'sha384'|'sha512'|'add'; hmac_key hex str; iv bytes|None;
+    cert kind name; certdir (shared directory of the certificate block configurations); img_ver int; sub int; fw_ver int; digest None|'sha256'|'sha384'|'sha512'|'add'; hmac_key hex str; iv bytes|None;
     lifecycle str; add_hash bool"""
 
     def __getattr__(self, n):
@@ -230,6 +230,7 @@ def _w(path, data):
 
 def cert_cfg_file(kind, workdir):
     """Write the certificate block configuration of a kind (absolute key paths) and return its path."""
+    os.makedirs(workdir, exist_ok=True)
     path = os.path.join(workdir, f"cert_{kind.replace('+', '_')}.yaml")
     if os.path.exists(path):
         return path
@@ -288,7 +289,7 @@ def make_config(m, o, workdir):
     if has(m, "CtrInitVector") and o.iv:
         cfg["CtrInitVector"] = "0x" + o["iv"].hex()
     if has(m, "CertBlockV1") or has(m, "CertBlockV21"):
-        cfg["certBlock"] = cert_cfg_file(o["cert"], workdir)
+        cfg["certBlock"] = cert_cfg_file(o["cert"], o.certdir or workdir)
         cfg["signPrivateKey"] = sign_key(o["cert"])
     if has(m, "ImageVersion"):
         cfg["imageVersion"] = o.img_ver or 0
@@ -445,3 +446,39 @@ def header_words(data):
     total, flags, w28 = struct.unpack_from("<3I", data, 0x20)
     (load,) = struct.unpack_from("<I", data, 0x34)
     return total, flags, w28, load
+
+
+def find_cert_headers(data, limit=8):
+    """Offsets at which a certificate block header starts: 'cert' + version 1.0 + header length 0x20, or 'chdr' + version 2.1."""
+    res = []
+    for magic, tail in ((b"cert", struct.pack("<2HI", 1, 0, 0x20)), (b"chdr", struct.pack("<2H", 1, 2))):
+        at = data.find(magic)
+        while at >= 0 and len(res) < limit:
+            if data[at + 4 : at + 4 + len(tail)] == tail:
+                res.append(at)
+            at = data.find(magic, at + 1)
+    return sorted(res)
+
+
+def diff_ranges(a, b, limit=24):
+    """Merged [from, to) ranges of positions where a and b differ (over the common length)."""
+    n = min(len(a), len(b))
+    res = []
+    if a[:n] == b[:n]:
+        return res
+    i = 0
+    while i < n and len(res) < limit:
+        if a[i] != b[i]:
+            j = i
+            while j < n and a[j] != b[j]:
+                j += 1
+            # bridge gaps of up to 3 equal bytes (a signature may coincide in single bytes)
+            while j < n and a[j:j + 4] != b[j:j + 4] and j - i < 1 << 20:
+                j += 1
+                while j < n and a[j] != b[j]:
+                    j += 1
+            res.append([i, j])
+            i = j
+        else:
+            i += 1
+    return res
